@@ -820,6 +820,11 @@ func (tic *TermInCommittee) HandleNewView(nvm *interfaces.NewViewMessage) {
 		return
 	}
 
+	if ppMessageContent.SignedHeader().InstanceId() != tic.instanceId {
+		tic.logger.Info("LHMSG RECEIVED NEW_VIEW IGNORE - NewView.Preprepare is for instance %s", ppMessageContent.SignedHeader().InstanceId())
+		return
+	}
+
 	latestVote := tic.latestViewChangeVote(viewChangeConfirmations)
 	if latestVote != nil {
 
